@@ -124,8 +124,10 @@ func (g *lsGen) c06Create(k string) string {
 // previous value must have removed its deadline too).
 func (g *lsGen) c06Fill(k string) string {
 	r := g.r
-	typ := pick(r, []string{"string", "string", "string", "list", "set", "hash", "zset"})
+	typ := pick(r, []string{"string", "string", "string", "list", "set", "hash", "zset", "stream"})
 	switch typ {
+	case "stream":
+		g.try(bs("xadd", k, "1-1", "f", "v"))
 	case "string":
 		g.try(bs("set", k, pick(r, []string{"v", "10", "hello"})))
 	case "list":
@@ -293,8 +295,16 @@ func (g *lsGen) c06Probe(k, typ string) {
 				g.try(pick(r, [][]B{bs("hlen", k), bs("hget", k, "f"), bs("hgetall", k), bs("hexists", k, "f")}))
 			case "zset":
 				g.try(pick(r, [][]B{bs("zrank", k, "a"), bs("zrange", k, "0", "-1")}))
+			case "stream":
+				g.try(bs("xrange", k, "-", "+"))
 			}
 		}
+		return
+	}
+	// commands whose reply alone says whether the key was there
+	if r.Bool(0.2) {
+		g.try(pick(r, [][]B{bs("del", k), bs("persist", k), bs("expire", k, "100", "xx"), bs("expire", k, "100", "nx"), bs("rename", k, k+"_r"), bs("exists", k, k)}))
+		g.try(bs("exists", k))
 		return
 	}
 	// re-arming: a fresh value and/or deadline written around the old deadline must
@@ -339,7 +349,10 @@ func (g *lsGen) c06Probe(k, typ string) {
 	case "hash":
 		g.try(pick(r, [][]B{bs("hset", k, "w", "1"), bs("hdel", k, "f"), bs("hincrby", k, "n", "1"), bs("hsetnx", k, "f", "new")}))
 	case "zset":
-		g.try(pick(r, [][]B{bs("zadd", k, "5", "w"), bs("zrem", k, "a"), bs("zadd", k, "xx", "7", "a")}))
+		g.try(pick(r, [][]B{bs("zadd", k, "5", "w"), bs("zrem", k, "a"), bs("zadd", k, "xx", "7", "a"), bs("zadd", k, "incr", "1", "a")}))
+	case "stream":
+		g.try(pick(r, [][]B{bs("xadd", k, "*", "f", "w"), bs("xadd", k, "9-1", "f", "w"), bs("xadd", k, "nomkstream", "*", "f", "w"), bs("xadd", k, "1-1", "f", "dup")}))
+		g.try(bs("xrange", k, "-", "+"))
 	}
 }
 
